@@ -105,6 +105,15 @@ func c05Gen(r *rand.Rand, id int) ([][]database.Command, []c05Step) {
 		optPool = append(optPool, c05VaryOpts(r, optPool[r.Intn(len(optPool))], len(dbs[0]), dbs[0]))
 	}
 	var steps []c05Step
+	if len(dbs[0]) >= 60 {
+		// the same broad query asked with a shrinking limit, enhancement on: each answer must be the fresh one for ITS limit
+		w := strings.Fields(dbs[0][len(dbs[0])-1].Description)[0]
+		for _, l := range []int{len(dbs[0]) + 1, 10, 3, 1, 2} {
+			o := base
+			o.NLP, o.Limit = true, l
+			steps = append(steps, c05Step{Op: []string{"search", "monsearch"}[r.Intn(2)], Query: ints(w), Opts: &o})
+		}
+	}
 	n := 3 + r.Intn(23)
 	for i := 0; i < n; i++ {
 		x := r.Intn(100)
